@@ -20,6 +20,8 @@ CONSTANTS Streams, W0, C0, MF0, DataSizes, PadSizes, Incs, InitWins, MaxFrames,
           DropOnClose,     \* TRUE: as found - when the sender's connection ends, what the relay still holds for the receiver is dropped
           WriteErrorEndsReader, \* TRUE: as found - a frame of the receiver's that cannot be passed on to a sender that is gone ends
                                 \* the reading of the receiver's frames, its WINDOW_UPDATEs among them
+          AckOvertakes,    \* TRUE: as found - the sender's acknowledgement of the receiver's SETTINGS is written to the receiver at
+                           \* once, past the frames that wait in the ordered output channel
           ForwardInitWin,  \* TRUE: as found - the receiver's SETTINGS_INITIAL_WINDOW_SIZE is passed on to the sender, whose own
                            \* windows towards the relay it then governs (while the receiver's WINDOW_UPDATEs stay with the relay)
           SplitOnlyAtEnqueue \* TRUE: as found - DATA is cut to the receiver's max frame size when queued and never again;
@@ -37,7 +39,12 @@ VARIABLES q, sw, bufs, cw, iw, mf, out, cont,      \* relay (flowMu-protected + 
           sets                                     \* SETTINGS frames on their way to the other endpoint (a2b, b2a) and their
                                                    \* acknowledgements on the way back (ackA: owed to A, ackB: owed to B);
                                                    \* gone: A has closed its connection altogether (writes to it fail);
-                                                   \* dead: the relay no longer reads B's frames
+                                                   \* dead: the relay no longer reads B's frames;
+                                                   \* pend: the initial-window values of the SETTINGS B has sent and not seen
+                                                   \* acknowledged (-1: a SETTINGS frame that says nothing about it), acked: the
+                                                   \* value of the last one acknowledged, ackD: acknowledgements written to B
+                                                   \* past the output channel, late: B was sent DATA that its window - as B
+                                                   \* keeps it, see BView - does not cover
 
 rel   == <<q, sw, bufs, cw, out>>
 ledg  == <<gS, gC, bad, badMF>>
@@ -58,7 +65,8 @@ Init ==
   /\ nSend = 0 /\ nCtl = 0
   /\ hcount = 0 /\ encOrder = <<>> /\ dlvOrder = <<>>
   /\ pings = {} /\ goneAway = "no" /\ aClosed = FALSE
-  /\ sets = [a2b |-> 0, b2a |-> 0, ackA |-> 0, ackB |-> 0, gone |-> FALSE, dead |-> FALSE]
+  /\ sets = [a2b |-> 0, b2a |-> 0, ackA |-> 0, ackB |-> 0, gone |-> FALSE, dead |-> FALSE,
+             pend |-> <<>>, acked |-> W0, ackD |-> 0, late |-> FALSE]
 
 \* relay.go:483 outputBuffer(): created on first use with the *current* initial window
 Buf(s) == IF s \in bufs THEN sw[s] ELSE iw
@@ -136,6 +144,21 @@ Split(s, n, es, m) ==
   IF n <= m THEN << [t |-> "D", s |-> s, n |-> n, es |-> es, h |-> 0] >>
   ELSE << [t |-> "D", s |-> s, n |-> m, es |-> FALSE, h |-> 0] >> \o Split(s, n - m, es, m)
 
+
+(* ---- the receiver's own view of its stream windows ---- *)
+\* B holds the sender to the initial window of its last acknowledged SETTINGS - or a larger one it has announced since: a
+\* SETTINGS frame takes effect at the other end some time before its acknowledgement arrives (RFC 9113 6.5.3, 6.9.2) - plus its
+\* WINDOW_UPDATEs, less what it has received. Once the acknowledgement is there, "the values ... have been applied": DATA beyond
+\* the new window is an error, however long ago the relay admitted it.
+MaxOf(S) == CHOOSE x \in S : \A y \in S : y <= x
+BInit == MaxOf({sets.acked} \cup {sets.pend[i] : i \in {j \in 1..Len(sets.pend) : sets.pend[j] >= 0}})
+RECURSIVE SumSeq(_)
+SumSeq(sq) == IF sq = <<>> THEN 0 ELSE Head(sq) + SumSeq(Tail(sq))
+CtlWU(s) == SumSeq([i \in 1..Len(ctl) |-> IF ctl[i].t = "WU" /\ ctl[i].s = s THEN ctl[i].v ELSE 0])
+OutFC(s) == SumSeq([i \in 1..Len(out) |-> IF out[i].s = s THEN FC(out[i]) ELSE 0])
+\* what B still offers on stream s: the relay's ledger (gS: initial window as applied + WINDOW_UPDATEs applied - DATA emitted),
+\* corrected by what is on its way in either direction and by the initial window B itself goes by
+BView(s) == gS[s] + CtlWU(s) + OutFC(s) + (BInit - iw)
 
 (* ---- sender A (frames read by relayFrames -> processFrame) ---- *)
 ASendData(s, n, pad, es) ==
@@ -240,8 +263,15 @@ BSendPing ==
 \* (queued_frames.go queuedDataFrame.send)
 Oversize(f) == f.t = "D" /\ f.n > mf
 HeadPiece == LET f == Head(out) IN IF Oversize(f) /\ ~SplitOnlyAtEnqueue THEN [f EXCEPT !.n = mf, !.es = FALSE] ELSE f
+AckFrame == [t |-> "ACK", s |-> 0, n |-> 0, es |-> FALSE, h |-> 0]
+PopPend(st) == [st EXCEPT !.pend = Tail(@), !.acked = IF Head(st.pend) >= 0 THEN Head(st.pend) ELSE @]
+WriterAck ==      \* the acknowledgement, in its place among the frames for B
+  /\ out # <<>> /\ Head(out).t = "ACK" /\ out' = Tail(out)
+  /\ sets' = PopPend(sets)
+  /\ UNCHANGED <<q, sw, bufs, cw, iw, mf, cont, ctl, ledg, aled, sentLog, dlvLog, nSend, nCtl, hp, pings, goneAway, aClosed>>
 WriterSend ==
-  /\ out # <<>>
+  /\ out # <<>> /\ Head(out).t # "ACK"
+  /\ sets' = [sets EXCEPT !.late = @ \/ (FC(HeadPiece) > 0 /\ FC(HeadPiece) > BView(HeadPiece.s))]
   /\ LET f == HeadPiece IN
        /\ out' = IF f = Head(out) THEN Tail(out) ELSE << [Head(out) EXCEPT !.n = @ - mf] >> \o Tail(out)
        /\ dlvLog' = [dlvLog EXCEPT ![f.s] =
@@ -252,7 +282,7 @@ WriterSend ==
        /\ dlvOrder' = IF f.t \in {"H", "PP"} THEN Append(dlvOrder, f.h) ELSE dlvOrder
        /\ encOrder' = IF f.t \in {"H", "PP"} /\ ~EncodeAtEnqueue THEN Append(encOrder, f.h) ELSE encOrder
        /\ badMF' = (badMF \/ Oversize(f))
-  /\ UNCHANGED <<q, sw, bufs, cw, iw, mf, cont, ctl, gS, gC, bad, aled, sentLog, nSend, nCtl, hcount, conn>>
+  /\ UNCHANGED <<q, sw, bufs, cw, iw, mf, cont, ctl, gS, gC, bad, aled, sentLog, nSend, nCtl, hcount, pings, goneAway, aClosed>>
 
 (* ---- receiver B issues control frames ---- *)
 \* SETTINGS frames ("SI" initial window, "SM" max frame size, "SE" empty: all defaults) are applied and passed on to A,
@@ -261,7 +291,8 @@ IsSettings(f) == f.t \in {"SI", "SM", "SE"}
 BCtl(f) ==
   /\ nCtl < MaxCtl /\ nCtl' = nCtl + 1 /\ Len(ctl) < MaxCtlQ
   /\ ctl' = Append(ctl, f)
-  /\ sets' = IF IsSettings(f) THEN [sets EXCEPT !.b2a = @ + 1] ELSE sets
+  \* (the frame is passed on to A when the relay processes it: ApplyCtl)
+  /\ sets' = IF IsSettings(f) THEN [sets EXCEPT !.pend = Append(@, IF f.t = "SI" THEN f.v ELSE -1)] ELSE sets
   /\ UNCHANGED <<rel, iw, mf, cont, ledg, aled, sentLog, dlvLog, nSend, hp, pings, goneAway, aClosed>>
 \* A sends a SETTINGS frame without parameters (relay.go processFrame: written to the receiver directly)
 ASendSettings ==
@@ -273,7 +304,17 @@ SetStep(from, to) == /\ sets[from] > 0 /\ sets' = IF to = "" THEN [sets EXCEPT !
 ARecvSettings == SetStep("b2a", "ackB")
 BRecvSettings == SetStep("a2b", "ackA")
 ARecvAck == SetStep("ackA", "")
-BRecvAck == SetStep("ackB", "")
+\* the relay reads A's acknowledgement (relay.go processFrame, SettingsFrame with ACK): it is passed on to B in its place among
+\* the frames for B - as found: at once
+RelayAck ==
+  /\ sets.ackB > 0
+  /\ IF AckOvertakes THEN sets' = [sets EXCEPT !.ackB = @ - 1, !.ackD = @ + 1] /\ UNCHANGED out
+     ELSE IF Eager THEN sets' = PopPend([sets EXCEPT !.ackB = @ - 1]) /\ UNCHANGED out
+     ELSE sets' = [sets EXCEPT !.ackB = @ - 1] /\ out' = Append(out, AckFrame) /\ Len(out) < OutCap
+  /\ UNCHANGED <<q, sw, bufs, cw, iw, mf, cont, ctl, ledg, aled, sentLog, dlvLog, nSend, nCtl, hp, pings, goneAway, aClosed>>
+BRecvAck ==       \* an acknowledgement that was written to B directly
+  /\ sets.ackD > 0 /\ sets' = PopPend([sets EXCEPT !.ackD = @ - 1])
+  /\ UNCHANGED <<rel, iw, mf, cont, ctl, ledg, aled, sentLog, dlvLog, nSend, nCtl, hp, pings, goneAway, aClosed>>
 
 (* ---- relay applies B's control frames (peer reader thread, under flowMu) ---- *)
 \* relay.go:472 sendQueuedFramesUnderWindowSize ranges over a Go map: any order
@@ -313,7 +354,8 @@ ApplyCtl ==
           [] f.t = "SE" -> UNCHANGED <<rel, iw, mf, ledg, dlvLog, hp>>
      \* relay.go processFrame, SettingsFrame: what is passed on to A with the frame
      /\ aInit' = IF f.t = "SI" /\ ForwardInitWin THEN f.v ELSE aInit
-  /\ UNCHANGED <<cont, aFC, aFCc, aCred, aCredC, sentLog, nSend, nCtl, conn>>
+     /\ sets' = IF IsSettings(f) THEN [sets EXCEPT !.b2a = @ + 1] ELSE sets
+  /\ UNCHANGED <<cont, aFC, aFCc, aCred, aCredC, sentLog, nSend, nCtl, pings, goneAway, aClosed>>
 
 Next ==
   \/ \E s \in Streams, n \in DataSizes, p \in PadSizes, es \in BOOLEAN : ASendData(s, n, p, es)
@@ -324,7 +366,7 @@ Next ==
   \/ \E s \in Streams : ASendPrio(s)
   \/ \E d \in Pings : ASendPing(d) \/ BRecvPing(d)
   \/ ASendGoAway \/ BRecvGoAway \/ ASendClose \/ ASendCloseFull \/ BSendPing \/ ASendUnknown
-  \/ (WithSettings /\ ASendSettings) \/ ARecvSettings \/ BRecvSettings \/ ARecvAck \/ BRecvAck
+  \/ (WithSettings /\ ASendSettings) \/ ARecvSettings \/ BRecvSettings \/ ARecvAck \/ BRecvAck \/ RelayAck \/ WriterAck
   \/ (WithSettings /\ BCtl([t |-> "SE", s |-> 0, v |-> 0]))
   \/ WriterSend
   \/ \E s \in Streams \cup {0}, i \in Incs : BCtl([t |-> "WU", s |-> s, v |-> i])
@@ -333,7 +375,7 @@ Next ==
   \/ ApplyCtl
 
 Spec == Init /\ [][Next]_vars /\ WF_vars(WriterSend) /\ WF_vars(ApplyCtl) /\ WF_vars(BRecvGoAway) /\ \A d \in Pings : WF_vars(BRecvPing(d))
-             /\ WF_vars(ARecvSettings) /\ WF_vars(BRecvSettings) /\ WF_vars(ARecvAck) /\ WF_vars(BRecvAck)
+             /\ WF_vars(ARecvSettings) /\ WF_vars(BRecvSettings) /\ WF_vars(ARecvAck) /\ WF_vars(BRecvAck) /\ WF_vars(RelayAck) /\ WF_vars(WriterAck)
 
 (* ---------------- properties ---------------- *)
 WithinGrant      == ~bad                       \* C09: stream and connection credit respected
@@ -356,7 +398,9 @@ LedgerAgrees     == gC = cw /\ \A s \in bufs : gS[s] = sw[s]     \* relay window
 HpackInOrder     == \A i \in 1..Len(dlvOrder) : i <= Len(encOrder) /\ dlvOrder[i] = encOrder[i]
 PrefixFidelity   == \A s \in Streams : LogPrefix(dlvLog[s], sentLog[s])        \* C10
 AllDelivered     == <>[](\A s \in Streams : q[s] = <<>> => dlvLog[s] = sentLog[s]) \* C10 liveness
-SetsDone == sets.a2b = 0 /\ sets.b2a = 0 /\ sets.ackA = 0 /\ sets.ackB = 0
+SetsDone == sets.a2b = 0 /\ sets.b2a = 0 /\ sets.ackA = 0 /\ sets.ackB = 0 /\ sets.ackD = 0 /\ sets.pend = <<>>
+\* C09: DATA never exceeds the credit the receiver has granted - as the receiver counts it (BView)
+WithinGrantAsReceiverCountsIt == ~sets.late
 \* C10 "none is stranded": the receiver's frames are read as long as its connection is open - whatever has become of the sender
 ReaderAlive      == ~sets.dead
 ConnFramesRelayed == <>[](pings = {} /\ goneAway # "sent" /\ SetsDone)                      \* C10: PING / GOAWAY reach the receiver
